@@ -20,6 +20,7 @@ def run(tier, seed):
     tl = [C.gen_tasks("fail", n, seed + 200, opcode_frac=opfrac, nmax=8 if tier == "quick" else 12)]
     for k in range(n_small):
         tl.append(C.small_shape_tasks(3, seed + 60 + k, fail=True))
+    tl.append(C.bundled_observer_tasks(seed, 150 if tier == "quick" else 5000, "fail"))
     EC.campaign(res, PROP, tl,
                 "executions with random subsets of calls raising fresh exception objects (Exception, KeyError, BaseException "
                 "subclass, SystemExit, KeyboardInterrupt raised in workers), max_errors in {None,0,1,2}, W from 1 to n+1; "
